@@ -16,11 +16,11 @@ const X: TableDefinition<u64, &[u8]> = TableDefinition::new("x");
 const Y: TableDefinition<u64, &[u8]> = TableDefinition::new("y");
 const MM: MultimapTableDefinition<u64, u64> = MultimapTableDefinition::new("mm");
 
-pub const SCENARIOS: [&str; 13] = ["S1", "S2", "S2g", "S3", "S3g", "S8g", "S4", "S7", "S5", "S5p", "S6", "S9", "S10"];
+pub const SCENARIOS: [&str; 14] = ["S8", "S1", "S2", "S2g", "S3", "S3g", "S8g", "S4", "S7", "S5", "S5p", "S6", "S9", "S10"];
 
 pub fn threads_of(scn: &str) -> usize {
     match scn {
-        "S2" | "S2g" | "S3" | "S3g" | "S8g" | "S6" | "S9" | "S10" => 2,
+        "S2" | "S2g" | "S3" | "S3g" | "S8g" | "S8" | "S6" | "S9" | "S10" => 2,
         _ => 3,
     }
 }
@@ -937,6 +937,7 @@ fn run_once_inner(scn: &str, cache_idx: usize, prefix: &[usize]) -> (ExecResult,
         "S3" => s3(cache_idx, prefix, false, false),
         "S3g" => s3(cache_idx, prefix, true, false),
         "S8g" => s3(cache_idx, prefix, true, true),
+        "S8" => s3(cache_idx, prefix, false, true),
         "S4" => s4(cache_idx, prefix),
         "S6" => s6(cache_idx, prefix, false),
         "S7" => s6(cache_idx, prefix, true),
